@@ -3,7 +3,7 @@
 revert, and record the outcome in seeded/<id>/meta.json and seeded/RESULTS.json.  Never leaves /repo dirty."""
 import json, os, re, subprocess, sys, time
 VERIF = os.path.dirname(os.path.dirname(os.path.abspath(__file__)))
-EXTRA = {"C09-m2": ["C15"], "C06-m3": ["C16"], "C12-m5": ["C17"], "C09-m4": ["C15"], "C02-m5": ["C10"], "C09-m7": ["C02"], "C15-m6": ["C02"]}
+EXTRA = {"C09-m2": ["C15"], "C06-m3": ["C16"], "C12-m5": ["C17"], "C09-m4": ["C15"], "C02-m5": ["C10"], "C09-m7": ["C02"], "C15-m6": ["C02"], "C02-m9": ["C08"], "C02-m8": ["C20"], "C01-m8": ["C11"]}
 only = sys.argv[1:]
 results = {}
 rp = os.path.join(VERIF, "seeded", "RESULTS.json")
